@@ -213,3 +213,51 @@ def mask_virtual(sens: bool, nested: bool, mask: Optional[str]) -> bool:
     if mask is not None:
         hold("virt", node_m["password"] == _mask_value("hunter2", mask) and node_m["user"] == "admin", "stored fields")
     return True
+
+
+@obligation(prop="C10", sites=("container",), encodes=ENC, stubs=("FakeFS",), budget={"quick": 120, "thorough": 300},
+            what="a LIST or DICT field that is itself marked sensitive (list of configurations with their own "
+                 "values, list of strings, typed dict): with a mask (none, empty, one character, two characters) the whole value is replaced per the rule and no "
+                 "item value appears; without a mask or when not sensitive it is rendered as usual")
+def mask_sensitive_container(kind: int, sens: bool, nested: bool, mi: int) -> bool:
+    """
+    pre: 0 <= kind <= 2 and 0 <= mi <= 3
+    post: _
+    """
+    mask = None
+    for n, cand in enumerate((None, "", "*", "XX")):
+        if mi == n:
+            mask = cand
+    from cincoconfig import DictField
+    item = Schema()
+    item.token = StringField(default="")
+    schema = Schema()
+    owner = schema.vault if nested else schema
+    owner.keep = StringField(default="visible")
+    if kind == 0:
+        owner.box = ListField(item, sensitive=sens, default=lambda: [])
+    elif kind == 1:
+        owner.box = ListField(StringField(), sensitive=sens, default=lambda: [])
+    else:
+        owner.box = DictField(StringField(), StringField(), sensitive=sens, default=lambda: {})
+    cfg = schema()
+    node = cfg.vault if nested else cfg
+    if kind == 0:
+        node.box = [{"token": "tok-SECRET-1"}, {"token": "tok-SECRET-2"}]
+    elif kind == 1:
+        node.box = ["tok-SECRET-1", "tok-SECRET-2"]
+    else:
+        node.box = {"a": "tok-SECRET-1"}
+    unmasked = cfg.to_tree()
+    masked = cfg.to_tree(sensitive_mask=mask)
+    mu = unmasked["vault"] if nested else unmasked
+    mm = masked["vault"] if nested else masked
+    hold("container", mm["keep"] == "visible", "non-sensitive sibling altered")
+    if mask is None or not sens:
+        hold("container", mm["box"] == mu["box"], "container altered although not sensitive / no mask")
+    else:
+        hold("container", "SECRET" not in repr(mm["box"]),
+             lambda: "value of a sensitive container field appears in the masked output: %r" % (mm["box"],))
+        hold("container", mm["box"] == mask or (len(mask) == 1 and isinstance(mm["box"], str) and set(mm["box"]) <= {mask}),
+             lambda: "sensitive container rendered as %r" % (mm["box"],))
+    return True
